@@ -630,7 +630,9 @@ class TemplateNode(WikiNode):
             parameter_name: Union[str, int] = ""
             if len(parameter_list) == 0:
                 unnamed_parameter_index += 1
-                parameters[unnamed_parameter_index] = ""
+                # (a list like every other value here: a later "N=..."
+                # argument with the same number appends to it)
+                parameters[unnamed_parameter_index] = [""]
 
             for index, parameter in enumerate(parameter_list):
                 if index == 0:
